@@ -1,6 +1,12 @@
 """Registry of claimed checks (drives tools/mkmanifest.py)."""
 
 REGISTRY = {
+    "C05": {
+        "text": "An exhaustive skeleton grid {enclosing construct (18 kinds incl. none)} x {construct (loops, for-in/of, switch with default in every position, labelled block, every try/catch/finally shape, code in catch and in finally)} x {exit kind: fall out, break, continue, labelled break/continue, return, throw from statement/mid-expression/callee/callback} x {expression context of the call: statement, operand, argument, array element, property value, condition, callee} plus closure-sharing, evaluation-order and completion-value probes and seeded random programs are run on the real engine; ordered log (every operand position logs a unique id), completion value and uncaught error are compared with node. Held = agreement on what was run; exploration over a bounded program space.",
+        "design_ref": "DESIGN.md 3/C05",
+        "note": "Trusts node v20 strict mode as reference for the implemented subset; generators avoid constructs covered by open findings (top-level var use-before-assignment). The observe_at 'static stack-depth consistency' is monitored dynamically by C02's residue sanitizer on executed paths only.",
+        "technique": "runtime differential monitor (node reference) on logged evaluation order and outcomes over an exhaustive control-flow skeleton grid + seeded random programs",
+    },
     "C01": {
         "text": "Every combination of non-terminating core (loops, recursion shapes, catastrophic regexes through every regex-consuming API, nested eval chains) x place where script code can run (33 placements: functions, constructors, every callback-taking built-in, accessors, conversions, call/apply/bind, eval, new Function) x try/catch/finally wrapper x deadline is run on the real engine under a virtual clock driven by the step hooks. Invariants asserted inside the hooks: no VM executes more than 1100 instructions, and no regex loop more than 300 (main) / 12000 (with lookarounds) consecutive steps, after the deadline; at the eval boundary the exception is exactly TimeLimitError, nothing runs or logs after the stop was raised, and a normal return proves END was logged. A real-clock tier ties ticks to wall time. Held = on the executions produced; T and operand sizes are sampled.",
         "design_ref": "DESIGN.md 3/C01",
